@@ -25,11 +25,21 @@ func (m Message) TagType() byte {
 }
 
 func (m Message) MarshalNBT(w io.Writer) error {
+	// The encoder that calls MarshalNBT has already written this value's tag header,
+	// so only the payload must be written: encode into a buffer and drop the
+	// root header (tag type and empty name, 3 bytes) that Encode emits.
+	var buf bytes.Buffer
+	var err error
 	if m.Translate != "" {
-		return nbt.NewEncoder(w).Encode(translateMsg(m), "")
+		err = nbt.NewEncoder(&buf).Encode(translateMsg(m), "")
 	} else {
-		return nbt.NewEncoder(w).Encode(rawMsgStruct(m), "")
+		err = nbt.NewEncoder(&buf).Encode(rawMsgStruct(m), "")
 	}
+	if err != nil {
+		return err
+	}
+	_, err = w.Write(buf.Bytes()[3:])
+	return err
 }
 
 func (m *Message) UnmarshalNBT(tagType byte, r nbt.DecoderReader) error {
